@@ -368,9 +368,9 @@ Proof.
 Qed.
 
 (** ** YIELD and ERROR *)
-Lemma sync_yield_unknown : forall d callee req opts args kw,
+Lemma sync_yield_unknown : forall lookup d callee req opts args kw,
     cget (d_invs d) (callee, req) = None ->
-    sync_yield d callee req opts args kw =
+    sync_yield lookup d callee req opts args kw =
     (d, if opt_bool opts "progress" then [(callee, RInterrupt req [("mode", vstr "killnowait")])] else []).
 Proof. intros. unfold sync_yield. rewrite H. reflexivity. Qed.
 
@@ -389,22 +389,60 @@ Proof. unfold yield_state; dproj; rewrite ct_invs; reflexivity. Qed.
 Definition result_msg (caller : N) (cid : callid) (progress : bool) (args : list value) (kw : dict) : out :=
   (caller, RResult (snd cid) (if progress then [("progress", VBool true)] else []) args kw).
 
-Lemma sync_yield_owner : forall d callee req opts args kw inv,
+(** the session announced payload passthru mode for that role *)
+Definition has_ppt (lookup : N -> option session) (sid : N) (role : string) : bool :=
+  match lookup sid with Some cs => sess_feature cs role f_ppt | None => false end.
+
+(** the state a YIELD of the invocation's owner leaves *)
+Definition yield_result_state (d : dealer) (callee req : N) (inv : invocation) (progress : bool) : dealer :=
+  if progress then d
+  else drop_call (yield_state d (callee, req) inv) (inv_call inv) (callee, req).
+
+(** the ERROR a caller gets for a final passthru YIELD that cannot be delivered *)
+Definition ppt_caller_err (caller : N) (cid : callid) : out :=
+  (caller, RError c_CALL (snd cid) ppt_error_details e_feature_not_supported [] []).
+
+(** what a YIELD of the invocation's owner sends when the caller is recorded *)
+Definition yield_out (lookup : N -> option session) (callee req : N) (opts : dict)
+           (args : list value) (kw : dict) (cid : callid) (caller : N) : list out :=
+  let progress := opt_bool opts "progress" in
+  let base := if progress then [("progress", VBool true)] else [] in
+  let caller_err := if progress then [] else [ppt_caller_err caller cid] in
+  if ppt_active opts then
+    if negb (has_ppt lookup callee "callee") then
+      caller_err ++ [(callee, RAbort [("message", vstr "<text>")] e_protocol_violation)]
+    else if negb (has_ppt lookup caller "caller") then
+      (callee, RError c_YIELD req ppt_error_details e_feature_not_supported [] []) :: caller_err
+    else [(caller, RResult (snd cid) (ppt_into opts base) args kw)]
+  else [(caller, RResult (snd cid) base args kw)].
+
+Lemma sync_yield_owner : forall lookup d callee req opts args kw inv,
     cget (d_invs d) (callee, req) = Some inv ->
-    sync_yield d callee req opts args kw =
-    (if opt_bool opts "progress" then d
-     else drop_call (yield_state d (callee, req) inv) (inv_call inv) (callee, req),
+    sync_yield lookup d callee req opts args kw =
+    (yield_result_state d callee req inv (opt_bool opts "progress"),
      match cget (d_calls d) (inv_call inv) with
-     | Some caller => [result_msg caller (inv_call inv) (opt_bool opts "progress") args kw]
+     | Some caller => yield_out lookup callee req opts args kw (inv_call inv) caller
      | None => []
      end).
 Proof.
-  intros d callee req opts args kw inv H. unfold sync_yield. rewrite H.
-  destruct (opt_bool opts "progress"); cbn [orb].
-  - destruct (cget (d_calls d) (inv_call inv)); reflexivity.
+  intros lookup d callee req opts args kw inv H. unfold sync_yield, yield_result_state, yield_out. rewrite H.
+  destruct (opt_bool opts "progress").
+  - destruct (cget (d_calls d) (inv_call inv)) as [caller|]; [|reflexivity].
+    unfold has_ppt, ppt_caller_err.
+    destruct (ppt_active opts); [|reflexivity].
+    destruct (negb _); [reflexivity|]. destruct (negb _); reflexivity.
   - fold (yield_state d (callee, req) inv). rewrite ys_calls.
-    destruct (cget (d_calls d) (inv_call inv)); reflexivity.
+    destruct (cget (d_calls d) (inv_call inv)) as [caller|]; [|reflexivity].
+    unfold has_ppt, ppt_caller_err.
+    destruct (ppt_active opts); [|reflexivity].
+    destruct (negb _); [reflexivity|]. destruct (negb _); reflexivity.
 Qed.
+
+(** without passthru mode the caller gets the RESULT *)
+Lemma yield_out_plain : forall lookup callee req opts args kw cid caller,
+    ppt_active opts = false ->
+    yield_out lookup callee req opts args kw cid caller = [result_msg caller cid (opt_bool opts "progress") args kw].
+Proof. intros. unfold yield_out. rewrite H. reflexivity. Qed.
 
 Lemma sync_error_unknown : forall d callee req det err args kw,
     cget (d_invs d) (callee, req) = None ->
